@@ -5,16 +5,24 @@ from evalutil import *
 from props.C07 import EDGE, candidates
 
 ID = "C15"
-LEVEL = "other"
-MODULES = ["H3Proofs.Props.C15"]
+LEVEL = "proof"
+MODULES = ["H3Proofs.Props.C15", "H3Proofs.Props.C07Iter"]
 THEOREMS = "auto"
-TECHNIQUE = ("Lean 4 theorems: flag validation (all 2^32 words), planar predicates over exact arithmetic; the "
-             "geometric meaning of the modes, nesting and the size bound are decided by a differential run against "
-             "independent planar predicates on every candidate cell near the polygon")
+TECHNIQUE = ("Lean 4 theorems about a model of polyfill.c's traversal and per-mode decision (flag validation for all 2^32 "
+             "words; per-mode decision formula with the nesting theorems; the iterator loop = recursive descent and, "
+             "relative to the two bounding-box pruning assumptions, result = all valid cells of the resolution filtered "
+             "by the mode's predicate, duplicate-free, in order; capacity rule) + model/code correspondence (traversal "
+             "model run over the library's own geometry answers vs the real compact iterator); the geometric meaning "
+             "of the modes and the size bound are decided by a differential run against independent planar predicates")
 ASSUMPTIONS = ["cell boundaries/centres are floating-point outputs of the library; cells within 1e-9 rad of a decision "
                "boundary are ambiguous and skipped; cells containing a pole are excluded (as the property does)"]
-NOT_PROVED = ["geometric meaning of FULL / OVERLAPPING on the sphere; maxPolygonToCellsSizeExperimental >= count (H4)"]
-EXPLANATION = ("four modes on every generated polygon: FULL only-if/if, OVERLAPPING if/never, duplicate-freeness, "
+ASSUMPTIONS.append("the floating-point predicates (cellToBBox, bbox overlap/containment, point-in-polygon, boundary "
+                   "crossing) enter the model as an abstract geometry; the exactness theorem assumes they prune soundly "
+                   "(Sound: a skipped cell has no accepted descendant, a contained cell only accepted ones)")
+NOT_PROVED = ["geometric meaning of FULL / OVERLAPPING on the sphere (that the library's floating-point predicates decide "
+              "what their names say, and prune soundly)", "maxPolygonToCellsSizeExperimental >= count (H4)"]
+EXPLANATION = ("traversal / decision / nesting / capacity theorems relative to an abstract geometry, tied to the code by running "
+               "the traversal model over the library's own predicate answers; four modes on every generated polygon: FULL only-if/if, OVERLAPPING if/never, duplicate-freeness, "
                "nesting FULL<=CENTER<=OVERLAPPING<=OVERLAPPING_BBOX, size bound, E_MEMORY_BOUNDS on a smaller "
                "capacity, E_OPTION_INVALID on bad flags")
 EPS = 1e-9
@@ -118,6 +126,7 @@ def evaluate(ctx, rng, tier, focus, budget, broken):
     nops = 0
     nclass = {"full_must": 0, "full_mustnot": 0, "over_must": 0, "over_mustnot": 0}
     nprims = [0]
+    ntrav = [0]
     for (loops, lat, lng, radius, res, kind) in _cases(rng, tier) + incell_cases(ctx, rng, tier):
         ps = gen.poly_str(loops)
         cand = candidates(ctx, lat, lng, radius, res, None)
@@ -210,6 +219,29 @@ def evaluate(ctx, rng, tier, focus, budget, broken):
                                       "library's own primitive predicates (decision logic / coarse pruning changed)",
                                       [ops[m], f"polyprims {gen.hx(h)} <polygon>"], f"member={b}", f"member={member} prims={a}",
                                       key=f"decision:{m}:{kind}:{res}:{gen.hx(h)}"))
+        # traversal logic: the model of nextCell / iterStepPolygonCompact (H3Model/PolyIter.lean, the subject of
+        # C07Iter.polyfill_exact), run over the geometry answers of the library's own predicates for every cell a
+        # descending traversal can reach (polytable), must yield the cell sequence of the real compact iterator, and
+        # its expansion must be the real result, for all four modes
+        if ctx.prep.model and len(cand) <= 1500:
+            tb = ctx.c([f"polytable {res} 0 {ps}"], tag="ptable")[0]
+            if ok(tb) and len(tb) < 3000000:
+                toks = " ".join(tb.split()[1:])
+                cops = [f"polycompact {res} {m} {ps}" for m in (0, 1, 2, 3)]
+                cout = ctx.c(cops, tag="pcompact")
+                mout = ctx.m([f"polyrun {res} {m} {toks}" for m in (0, 1, 2, 3)] +
+                             [f"polyrunx {res} {m} {len(sets[m])} {toks}" for m in (0, 1, 2, 3)], tag="prun")
+                ntrav[0] += 8
+                for m in (0, 1, 2, 3):
+                    if cout[m] != mout[m]:
+                        viol_.append(viol("the compact iterator's cell sequence differs from the traversal model run over the "
+                                          "library's own geometry answers (nextCell / descent / pruning logic changed)",
+                                          [cops[m]], mout[m][:300], cout[m][:300], key=f"traversal:{m}:{kind}:{res}"))
+                    exp_cells = sorted(sets[m])
+                    got = [int(x, 16) for x in mout[4 + m].split()[2:]] if ok(mout[4 + m]) else None
+                    if got != exp_cells:
+                        viol_.append(viol("polygonToCellsExperimental's result differs from the expansion of the traversal model",
+                                          [ops[m]], f"{len(exp_cells)} cells", mout[4 + m][:300], key=f"expansion:{m}:{kind}:{res}"))
         # capacity below the count -> E_MEMORY_BOUNDS ; invalid flags -> E_OPTION_INVALID
         ops2, exp2 = [], []
         for m in (0, 2):
@@ -226,7 +258,8 @@ def evaluate(ctx, rng, tier, focus, budget, broken):
     return {"evaluations": nops, "violations": viol_[:20],
             "distinct": [f"{k}:{i}" for k, n in stats.items() for i in range(n)],
             "coverage": {"polygons": sum(stats.values()), "by_kind": stats, "cell_classifications": nclass,
-                         "decision_formula_evaluations": nprims[0]},
+                         "decision_formula_evaluations": nprims[0],
+                         "traversal_model_runs": ntrav[0]},
             "samples": [{"op": "polyfillx <res> <mode> 0 <polygon>", "note": "see coverage"}]}
 
 
